@@ -39,6 +39,7 @@ OUTSIDE = [
     ("core:and-or-value", "and/or returning an operand", "x = 0\ny = 5\nz = x or y\nmon.write(z)\n"),
     ("core:bool-printing", "write(bool)", "f = 3 < 4\nmon.write(f)\n"),
     ("core:loop-hoisted-reset", "name first assigned inside a branch of the main loop", "n = 0\nwhile True:\n    n += 1\n    if n == 1:\n        z = 42\n    mon.write(z)\n"),
+    ("core:nested-promotion-reset", "name first assigned in a block nested inside a loop of the prologue", "for i in range(2):\n    if i == 0:\n        x = 5\n    mon.write(x)\n"),
     ("core:range-limit-changed", "range(n) with n changed in the body", "n = 3\nfor i in range(n):\n    n = n - 1\n    mon.write(i)\n"),
     ("core:loop-var-assigned", "loop variable assigned in the body", "for i in range(4):\n    mon.write(i)\n    i = i + 1\n"),
     ("core:helper-assigns-global-name", "helper assigns a module-level name without global", "count = 0\ndef bump():\n    count = 5\n    return count\nbump()\nmon.write(count)\n"),
@@ -111,21 +112,28 @@ def run(ctx: Ctx) -> int:
     for _ in range(ctx.n(120, 2500)):
         g = langgen.G(rng, max_depth=rng.choice([1, 2, 3]))
         progs.append(g.program())
+    # programs whose top-level branches / loops introduce names (promotion; model side = tr2)
+    n_plain = len(progs) + 1
+    promo = [langgen.G(rng, max_depth=rng.choice([2, 3]), promote=True).program() for _ in range(ctx.n(60, 1200))]
     # every top-level `break` directly in the main loop must be rejected (through if nesting too)
     progs.append({"pre": [("as", "a", ("i", 1))], "loop": [("wr", ("v", "a")), ("if", ("cmp", "gt", ("v", "a"), ("i", 0)), [("brk",)], [])]})
+    progs += promo
     srcs = [langgen.py_source(p) for p in progs]
     sxs = [langgen.sx_prog(p) for p in progs]
     passes = [rng.choice([0, 1, 3]) for _ in progs]
     outs = [cxx.transpile(s) for s in srcs]
-    mt = ctx.lean.drive([f"lang|tr|{s}" for s in sxs])
+    two = ["" if i < n_plain else "2" for i in range(len(progs))]
+    mt = ctx.lean.drive([f"lang|tr{t}|{s}" for s, t in zip(sxs, two)])
     mpy = ctx.lean.drive([f"lang|pyrun|{s}|{n}|{FUEL}" for s, n in zip(sxs, passes)])
-    mc = ctx.lean.drive([f"lang|crun|{s}|{n}|{FUEL}" for s, n in zip(sxs, passes)])
+    mc = ctx.lean.drive([f"lang|crun{t}|{s}|{n}|{FUEL}" for s, n, t in zip(sxs, passes, two)])
     jobs = [(cpp, n, "") for (cpp, e), n in zip(outs, passes) if cpp is not None]
     it = iter(cxx.run_many(ctx, jobs))
     results = [next(it) if cpp is not None else None for cpp, e in outs]
     norm = lambda text: [" ".join(l.split()) for l in text.split("\n") if l.strip() and not l.strip().startswith("//")]
-    for p, src, sx, n, (cpp, exc), res, t, rpy, rc in zip(progs, srcs, sxs, passes, outs, results, mt, mpy, mc):
-        ctx.count("programs")
+    for p, src, sx, n, (cpp, exc), res, t, rpy, rc, t2 in zip(progs, srcs, sxs, passes, outs, results, mt, mpy, mc, two):
+        ctx.count("programs" + ("-with-promotion" if t2 else ""))
+        if t2 and t.startswith("ok") and not t.endswith(" in"):
+            ctx.tie_diff("generator invariant (promotion programs are in InF2)", {"script": src}, t[-4:], "")
         replay = {"script": src, "passes": n}
         # ---- T
         if t.startswith("reject"):
